@@ -233,7 +233,9 @@ func genHelpNode(r *rand.Rand, name string, depth int, parent *hNode, version bo
 			}
 		default:
 			v := [][]float64{nil, {1.5}, {1, 2.5}}[r.Intn(3)]
-			decls = append(decls, func(c *cli.Cmd) { c.Floats64(cli.Floats64Opt{Name: name, Desc: d, EnvVar: e, Value: v, HideValue: hide}) })
+			decls = append(decls, func(c *cli.Cmd) {
+				c.Floats64(cli.Floats64Opt{Name: name, Desc: d, EnvVar: e, Value: v, HideValue: hide})
+			})
 			if len(v) > 0 {
 				var q []string
 				for _, x := range v {
